@@ -55,6 +55,8 @@ def _msg_payload(rng, history, big_ok):
     if r < 0.6:
         return bytes([rng.randrange(256)])
     n = rng.choice([5, 40, 300, 2000, 9000] + ([70000] if big_ok else []))
+    if rng.random() < 0.2:
+        return S.far_repeat(rng, rng.choice([700, 2500, 12000, 70000]))
     kind = rng.randrange(3)
     if kind == 0:
         return S.rand_text(rng, n // 2).encode('utf-8')
